@@ -59,15 +59,16 @@ VReport(pr, nprefix) ==
   LET p == Compile(pr)
       vm == RunVM(p, 5000)
       want == Run(EmptyEnv, pr, 1, Fuel).res
-      k == Len(Compile(SubSeq(pr, 1, nprefix)).chunks) IN
+      pre == Compile(SubSeq(pr, 1, nprefix))
+      k == Len(pre.chunks) IN
   [jumps |-> JumpsForward(p), closed |-> ChunksClosed(p), halt |-> vm.halt, rootok |-> vm.rootok,
    balanced |-> RunBalanced(p, vm), steps |-> vm.steps,
    agrees |-> IF vm.halt = "error" \/ IsErr(want) THEN vm.halt = "error" /\ IsErr(want) /\ RunValue(vm) = want
               ELSE RunValue(vm).k = want.k /\ ValJson(RunValue(vm)) = ValJson(want),
    got |-> ValJson(RunValue(vm)), want |-> ValJson(want), wantk |-> want.k, wantv |-> IF IsErr(want) THEN want.v ELSE "",
-   \* <main>, the chunks after those of the catalogue (+ variant), all constants - for the comparison with the decoded bytecode
+   \* <main>, the chunks and constants after those of the catalogue (+ variant) - for the comparison with the decoded bytecode
    main |-> CodeJson(p.chunks[1].code), extra |-> [c \in 1..(Len(p.chunks) - k) |-> ChunkJson(p.chunks[k + c])],
-   consts |-> ConstJson(p.consts)]
+   consts |-> ConstJson(SubSeq(p.consts, Len(pre.consts) + 1, Len(p.consts)))]
 NCat(v) == Len(Catalogue) + Len(Variants[v])
 VNext == /\ \/ Next
             \/ stage = 1 /\ \E t \in XTails(seed) : prog' = Catalogue \o Variants[seed.v] \o t /\ stage' = 2 /\ UNCHANGED seed
@@ -95,5 +96,5 @@ EmitCaseV == stage = 2 =>
 \* the chunks of the catalogue (+ variant), once per seed
 EmitCatCode == stage = 1 =>
   LET p == Compile(Catalogue \o Variants[seed.v]) IN
-  PrintT(<<"CATCODE", ToJson([variant |-> seed.v, chunks |-> [c \in 1..Len(p.chunks) |-> ChunkJson(p.chunks[c])]])>>)
+  PrintT(<<"CATCODE", ToJson([variant |-> seed.v, chunks |-> [c \in 1..Len(p.chunks) |-> ChunkJson(p.chunks[c])], consts |-> ConstJson(p.consts)])>>)
 =============================================================================
